@@ -721,8 +721,10 @@ def report_hangs(ctx, stats):
         c = {k: v for k, v in c.items() if not k.startswith("_")}
         h = hashlib.sha256(json.dumps(c, sort_keys=True).encode()).hexdigest()[:12]
         path = os.path.join(vcheck.VERIF, "replays", "%s-hang-%s.json" % (ctx.id, h))
-        json.dump({"property": ctx.id, "what": "operation never returns (livelock) on %s" % VARIANTS[c["variant"]][0], "case": c,
-                   "signature": "bronson-extract_minmax-livelock-routing-leaf" if VARIANTS[c["variant"]][2] == "bronson" else None}, open(path, "w"), indent=1)
+        vinfo = VARIANTS.get(c.get("variant"))          # C18 re-uses this function with variant numbers of its own
+        vname = vinfo[0] if vinfo else "variant %s" % c.get("variant")
+        json.dump({"property": ctx.id, "what": "operation never returns (livelock) on %s" % vname, "case": c,
+                   "signature": "bronson-extract_minmax-livelock-routing-leaf" if vinfo and vinfo[2] == "bronson" else None}, open(path, "w"), indent=1)
         out.append(path)
     if hangs:
         print("LIVENESS-OBSERVATION: property=%s %d case(s) never finished (not a %s violation) first=%s" % (ctx.id, len(hangs), ctx.id, out[0]), flush=True)
